@@ -59,3 +59,152 @@ def relational_obligations(reg, repo):
         o.inputs = list(recs.items())
         out.append(o)
     return out
+
+
+# ---------------------------------------------------------------------------------------------------------
+from .types import GNode, LINE, Opt  # noqa
+from . import io_c  # noqa
+
+SORT = "gaftools/cli/sort.py"
+PA_RET = TupleT(INT, INT, INT, INT, STR)
+IDXVAL = TupleT(Opt(INT), Opt(INT))
+IndexDict = DictT(STR, IDXVAL)
+
+
+def _default_pair(eng):
+    from pyvc.engine import Val
+    return Val(IDXVAL.mk([Opt(INT).none(), Opt(INT).none()]), IDXVAL)
+
+
+IndexDict.default = _default_pair
+
+REC_OF = ("lambda j: process_alignment(fields_of(rstrip(reader.lines[j])), nodes, reader.offs[j])")
+
+
+def register_sort_loops(reg):
+    io_c.register(reg)
+    reg.add(Contract(
+        file=SORT, func="write_to_file", params=dict(line=LINE, writer=ListT(LINE)), modifies=["writer"],
+        ensures={"appended": "len(writer) == len(old(writer)) + 1 and writer[len(old(writer))] == line and "
+                             "forall(lambda k: implies(0 <= k < len(old(writer)), writer[k] == old(writer)[k]))"},
+    ))
+    # caller view of process_alignment: a deterministic function of (fields, graph tags, offset); its own contract is below
+    reg.add(Contract(
+        file=SORT, func="process_alignment", params=dict(line=LINE, nodes=DictT(STR, GNode), offset=INT), returns=PA_RET, pure=True,
+        trusted=True, ensures={"inv-is-flag": "result[3] == 0 or result[3] == 1"},
+        notes="caller view (pure function symbol); the body is verified under process_alignment#body",
+    ))
+    reg.add(Contract(
+        file=SORT, func="sort", variant="#passes", fragment=("gaf_alignments = []", "if index_file is not None:", 0),
+        params=dict(reader=io_c.Reader, nodes=DictT(STR, GNode), writer=ListT(LINE), index_dict=IndexDict, index_file=Opt(STR)),
+        types=dict(Alignment=SortRec, STR=STR, INT=INT),
+        ufuns={"fields_of": ([STR], LINE), "rstrip": ([STR], STR), "woff": ([INT], INT)},
+        ghost=dict(seen=MapT(STR, BOOL), firstpos=MapT(STR, INT), lastpos=MapT(STR, INT), w0=INT, sort_perm=MapT(INT, INT), sort_perm_inv=MapT(INT, INT),
+                   pickled_index=IndexDict),
+        locals=dict(gaf_alignments=ListT(SortRec)),
+        spec_funcs={"rec": REC_OF, "R": "lambda: len(reader.lines)"},
+        requires=io_c.reader_wf("reader") + ["reader.pos == 0", "forall(STR, lambda s: not (s in index_dict))", "forall(STR, lambda s: not seen[s])",
+                                             "w0 == len(writer)"],
+        loops={
+            1: Loop(fingerprint="while True", decreases="len(reader.lines) - reader.pos", invariant={
+                "reader-frame": "reader.lines == old(reader).lines and reader.offs == old(reader).offs and reader.idx == old(reader).idx",
+                "one-per-record": "reader.pos == len(gaf_alignments) and reader.pos <= len(reader.lines)",
+                "offsets": "forall(lambda j: implies(0 <= j < len(gaf_alignments), gaf_alignments[j].offset == reader.offs[j]))",
+                "keys": "forall(lambda j: implies(0 <= j < len(gaf_alignments), gaf_alignments[j].BO == rec(j)[0] and gaf_alignments[j].NO == rec(j)[1] "
+                        "and gaf_alignments[j].start == rec(j)[2] and gaf_alignments[j].inv == rec(j)[3] and gaf_alignments[j].sn == rec(j)[4]))",
+                "writer-untouched": "writer == old(writer) and index_dict == old(index_dict)",
+            }),
+            2: Loop(index="it2", fingerprint="for alignment in gaf_alignments", invariant={
+                "reader-frame": "reader.lines == old(reader).lines and reader.offs == old(reader).offs and reader.idx == old(reader).idx",
+                "one-line-per-record": "len(writer) == w0 + it2",
+                "earlier-output-kept": "forall(lambda k: implies(0 <= k < w0, writer[k] == old(writer)[k]))",
+                "line-len": "forall(lambda t: implies(0 <= t < it2, len(writer[w0 + t]) == 4))",
+                "line-0": "forall(lambda t: implies(0 <= t < it2, writer[w0 + t][0] == rstrip(reader.lines[reader.idx[gaf_alignments[t].offset]])))",
+                "line-bo": "forall(lambda t: implies(0 <= t < it2, writer[w0 + t][1] == cat('bo:i:', str(gaf_alignments[t].BO))))",
+                "line-sn": "forall(lambda t: implies(0 <= t < it2, writer[w0 + t][2] == cat('sn:Z:', gaf_alignments[t].sn)))",
+                "line-iv": "forall(lambda t: implies(0 <= t < it2, writer[w0 + t][3] == cat(cat('iv:i:', str(gaf_alignments[t].inv)), '\\n')))",
+                "index-keys": "implies(not is_none(index_file), forall(STR, lambda s: (s in index_dict) == seen[s]))",
+                "index-untouched-without-file": "implies(is_none(index_file), index_dict == old(index_dict))",
+                "index-values": "implies(not is_none(index_file), forall(STR, lambda s: implies(seen[s], "
+                                "index_dict[s] == (woff(w0 + firstpos[s]), woff(w0 + lastpos[s])))))",
+                "first-last-range": "forall(STR, lambda s: implies(seen[s], 0 <= firstpos[s] <= lastpos[s] < it2 and "
+                                    "gaf_alignments[firstpos[s]].sn == s and gaf_alignments[lastpos[s]].sn == s))",
+                "all-between": "forall(lambda t: implies(0 <= t < it2, seen[gaf_alignments[t].sn] and "
+                               "firstpos[gaf_alignments[t].sn] <= t <= lastpos[gaf_alignments[t].sn]))",
+            }, ghost_body_start="firstpos[alignment.sn] = ite(seen[alignment.sn], firstpos[alignment.sn], it2 - 1)\n"
+                                "lastpos[alignment.sn] = it2 - 1\nseen[alignment.sn] = True"),
+        },
+        assert_at={"after:gaf_alignments.sort(": {
+            "sorted-len": "len(gaf_alignments) == R()",
+            "sorted-offsets": "forall(lambda t: implies(0 <= t < R(), 0 <= sort_perm_inv[t] < R() and gaf_alignments[t].offset == reader.offs[sort_perm_inv[t]] "
+                              "and reader.idx[gaf_alignments[t].offset] == sort_perm_inv[t]))",
+            "sorted-keys": "forall(lambda t: implies(0 <= t < R(), gaf_alignments[t].BO == rec(sort_perm_inv[t])[0] and gaf_alignments[t].inv == rec(sort_perm_inv[t])[3] "
+                           "and gaf_alignments[t].sn == rec(sort_perm_inv[t])[4]))",
+        }},
+        ensures={
+            # C09: a permutation of the input records, each with exactly the three tags appended
+            "count": "len(writer) == w0 + R()",
+            "permutation": "forall(lambda j: implies(0 <= j < R(), 0 <= sort_perm[j] < R() and sort_perm_inv[sort_perm[j]] == j)) and "
+                           "forall(lambda t: implies(0 <= t < R(), 0 <= sort_perm_inv[t] < R() and sort_perm[sort_perm_inv[t]] == t))",
+            "each-line-has-four-parts": "forall(lambda t: implies(0 <= t < R(), len(writer[w0 + t]) == 4))",
+            "each-line-is-its-input-line": "forall(lambda t: implies(0 <= t < R(), writer[w0 + t][0] == rstrip(old(reader).lines[sort_perm_inv[t]])))",
+            "plus-bo-tag": "forall(lambda t: implies(0 <= t < R(), writer[w0 + t][1] == cat('bo:i:', str(rec(sort_perm_inv[t])[0]))))",
+            "plus-sn-tag": "forall(lambda t: implies(0 <= t < R(), writer[w0 + t][2] == cat('sn:Z:', rec(sort_perm_inv[t])[4])))",
+            "plus-iv-tag": "forall(lambda t: implies(0 <= t < R(), writer[w0 + t][3] == cat(cat('iv:i:', str(rec(sort_perm_inv[t])[3])), '\\n')))",
+            # C10: the index
+            "index-no-unknown": "implies(not is_none(index_file), not ('unknown' in pickled_index))",
+            "index-entries": "implies(not is_none(index_file), forall(STR, lambda s: implies(s != 'unknown', (s in pickled_index) == seen[s] and "
+                             "implies(seen[s], pickled_index[s] == (woff(w0 + firstpos[s]), woff(w0 + lastpos[s]))))))",
+            "index-first-last-are-records-of-the-contig": "forall(STR, lambda s: implies(seen[s], 0 <= firstpos[s] <= lastpos[s] < R() and "
+                             "rec(sort_perm_inv[firstpos[s]])[4] == s and rec(sort_perm_inv[lastpos[s]])[4] == s))",
+            "index-all-records-between": "forall(lambda t: implies(0 <= t < R(), seen[rec(sort_perm_inv[t])[4]] and "
+                             "firstpos[rec(sort_perm_inv[t])[4]] <= t <= lastpos[rec(sort_perm_inv[t])[4]]))",
+        },
+    ))
+
+
+def register_process_alignment(reg):
+    TOK = "tokens_of(line[5])"
+    reg.add(Contract(
+        file=SORT, func="process_alignment", variant="#body",
+        params=dict(line=LINE, nodes=DictT(STR, GNode), offset=INT), returns=PA_RET,
+        ufuns={"tokens_of": ([STR], LINE)}, types=dict(STR=STR, INT=INT),
+        ghost=dict(gfw=INT, grv=INT, first0=INT),
+        locals=dict(orient=Opt(STR), orient_list=ListT(STR), sn=Opt(STR), bo=Opt(INT), no=Opt(INT), start=Opt(INT)),
+        lifted_asserts=["sn == sn_tag"],
+        spec_funcs={
+            "tok": "lambda k: tokens_of(line[5])[k]",
+            "isname": "lambda k: tokens_of(line[5])[k] != '>' and tokens_of(line[5])[k] != '<'",
+            "tagint": "lambda k, t: int(nodes[tokens_of(line[5])[k]].tags[t][1])",
+        },
+        requires=[
+            "len(line) >= 9", "len(tokens_of(line[5])) >= 2", "not isname(0)", "isname(1)", "isname(len(tokens_of(line[5])) - 1)",
+            "forall(lambda k: implies(0 <= k < len(tokens_of(line[5])) and isname(k), tok(k) in nodes and 'SN' in nodes[tok(k)].tags and "
+            "'BO' in nodes[tok(k)].tags and 'NO' in nodes[tok(k)].tags and 'SR' in nodes[tok(k)].tags))",
+            "gfw == 0 and grv == 0 and first0 == -1",
+        ],
+        loops={1: Loop(index="it1", fingerprint="for n in path", invariant={
+            "orient-set": "implies(it1 >= 1, not is_none(orient) and (val(orient) == '>' or val(orient) == '<'))",
+            "counts": "orient_list.count('>') == gfw and orient_list.count('<') == grv and gfw >= 0 and grv >= 0",
+            "sn-first-rank0": "(is_none(sn) == (first0 == -1)) and -1 <= first0 < it1 and implies(first0 >= 0, isname(first0) and tagint(first0, 'SR') == 0 "
+                              "and val(sn) == nodes[tok(first0)].tags['SN'][1])",
+            "no-earlier-rank0": "forall(lambda k: implies(0 <= k < ite(first0 == -1, it1, first0) and isname(k), tagint(k, 'SR') != 0))",
+            "inv-still-0": "inv == 0",
+        })},
+        ghost_at={
+            # definition of the counters from the graph tags (not from the code's control flow)
+            "after:sr_tag =": "gfw = gfw + ite(tagint(it1 - 1, 'BO') != -1 and tagint(it1 - 1, 'NO') == 0 and val(orient) == '>', 1, 0)\n"
+                              "grv = grv + ite(tagint(it1 - 1, 'BO') != -1 and tagint(it1 - 1, 'NO') == 0 and val(orient) == '<', 1, 0)",
+            "after:sn = sn_tag": "first0 = it1 - 1",
+        },
+        ensures={
+            "anchor-last-iff-more-reverse-scaffold-steps":
+                "result[0] == tagint(ite(gfw < grv, len(tokens_of(line[5])) - 1, 1), 'BO') and result[1] == tagint(ite(gfw < grv, len(tokens_of(line[5])) - 1, 1), 'NO')",
+            "start-on-the-anchor-side": "result[2] == ite(gfw < grv, int(line[6]) - int(line[8]), int(line[7]))",
+            "inversion-flag": "result[3] == ite(gfw != 0 and grv != 0, 1, 0)",
+            "sn-of-first-rank0-node-or-unknown": "result[4] == ite(first0 == -1, 'unknown', nodes[tok(ite(first0 == -1, 1, first0))].tags['SN'][1])",
+            "first0-is-first": "forall(lambda k: implies(0 <= k < ite(first0 == -1, len(tokens_of(line[5])), first0) and isname(k), tagint(k, 'SR') != 0)) and "
+                               "implies(first0 >= 0, isname(first0) and tagint(first0, 'SR') == 0)",
+        },
+        notes="ghost counters gfw / grv count the tagged scaffold steps (BO != -1, NO == 0) by orientation; first0 is the index of the first rank-0 node token",
+    ))
